@@ -2,9 +2,9 @@
 //!
 //! Requires the `time_trigger` feature.
 
-#[cfg(test)]
-use chrono::NaiveDateTime;
-use chrono::{DateTime, Datelike, Duration, Local, TimeZone, Timelike};
+use chrono::{
+    DateTime, Datelike, Duration, Local, LocalResult, NaiveDate, NaiveDateTime, TimeZone, Timelike,
+};
 #[cfg(test)]
 use mock_instant::{SystemTime, UNIX_EPOCH};
 use rand::Rng;
@@ -212,17 +212,42 @@ impl TimeTrigger {
         }
     }
 
+    // Turns a local wall-clock time into an instant. Around a change of the UTC offset
+    // (daylight saving) a wall-clock time can exist twice or not at all: of two candidates
+    // the first one after `after` is taken, a time that does not exist is moved forward to
+    // the first wall-clock time that does.
+    fn resolve_local(naive: NaiveDateTime, after: DateTime<Local>) -> DateTime<Local> {
+        let mut naive = naive;
+        for _ in 0..(24 * 4) {
+            match Local.from_local_datetime(&naive) {
+                LocalResult::Single(time) => return time,
+                LocalResult::Ambiguous(earliest, latest) => {
+                    return if earliest > after { earliest } else { latest };
+                }
+                LocalResult::None => naive += Duration::minutes(15),
+            }
+        }
+        after + Duration::days(1)
+    }
+
     fn get_next_time(
         current: DateTime<Local>,
         interval: TimeTriggerInterval,
         modulate: bool,
     ) -> DateTime<Local> {
+        // All calendar arithmetic is done on the local wall-clock time, so that the result
+        // stays on a unit boundary when the UTC offset changed earlier in the current unit.
+        let date = current.date_naive();
+        let midnight = NaiveDateTime::new(date, chrono::NaiveTime::MIN);
         let year = current.year();
         if let TimeTriggerInterval::Year(n) = interval {
             let n = n as i32;
             let increment = if modulate { n - year % n } else { n };
             let year_new = year + increment;
-            return Local.with_ymd_and_hms(year_new, 1, 1, 0, 0, 0).unwrap();
+            let time = NaiveDate::from_ymd_opt(year_new, 1, 1)
+                .map(|date| NaiveDateTime::new(date, chrono::NaiveTime::MIN))
+                .expect("year out of range");
+            return Self::resolve_local(time, current);
         }
 
         if let TimeTriggerInterval::Month(n) = interval {
@@ -233,53 +258,49 @@ impl TimeTrigger {
             let num_months_new = num_months + increment;
             let year_new = (num_months_new / 12) as i32;
             let month_new = (num_months_new) % 12 + 1;
-            return Local
-                .with_ymd_and_hms(year_new, month_new, 1, 0, 0, 0)
-                .unwrap();
+            let time = NaiveDate::from_ymd_opt(year_new, month_new, 1)
+                .map(|date| NaiveDateTime::new(date, chrono::NaiveTime::MIN))
+                .expect("year out of range");
+            return Self::resolve_local(time, current);
         }
 
-        let month = current.month();
-        let day = current.day();
         if let TimeTriggerInterval::Week(n) = interval {
             let week0 = current.iso_week().week0() as i64;
             let weekday = current.weekday().num_days_from_monday() as i64; // Monday is the first day of the week
-            let time = Local.with_ymd_and_hms(year, month, day, 0, 0, 0).unwrap();
             let increment = if modulate { n - week0 % n } else { n };
-            return time + Duration::weeks(increment) - Duration::days(weekday);
+            let time = midnight + Duration::weeks(increment) - Duration::days(weekday);
+            return Self::resolve_local(time, current);
         }
 
         if let TimeTriggerInterval::Day(n) = interval {
             let ordinal0 = current.ordinal0() as i64;
-            let time = Local.with_ymd_and_hms(year, month, day, 0, 0, 0).unwrap();
             let increment = if modulate { n - ordinal0 % n } else { n };
-            return time + Duration::days(increment);
+            return Self::resolve_local(midnight + Duration::days(increment), current);
         }
 
         let hour = current.hour();
         if let TimeTriggerInterval::Hour(n) = interval {
-            let time = Local
-                .with_ymd_and_hms(year, month, day, hour, 0, 0)
-                .unwrap();
             let increment = if modulate { n - (hour as i64) % n } else { n };
-            return time + Duration::hours(increment);
+            let time = midnight + Duration::hours(hour as i64 + increment);
+            return Self::resolve_local(time, current);
         }
 
         let min = current.minute();
         if let TimeTriggerInterval::Minute(n) = interval {
-            let time = Local
-                .with_ymd_and_hms(year, month, day, hour, min, 0)
-                .unwrap();
             let increment = if modulate { n - (min as i64) % n } else { n };
-            return time + Duration::minutes(increment);
+            let time =
+                midnight + Duration::hours(hour as i64) + Duration::minutes(min as i64 + increment);
+            return Self::resolve_local(time, current);
         }
 
         let sec = current.second();
         if let TimeTriggerInterval::Second(n) = interval {
-            let time = Local
-                .with_ymd_and_hms(year, month, day, hour, min, sec)
-                .unwrap();
             let increment = if modulate { n - (sec as i64) % n } else { n };
-            return time + Duration::seconds(increment);
+            let time = midnight
+                + Duration::hours(hour as i64)
+                + Duration::minutes(min as i64)
+                + Duration::seconds(sec as i64 + increment);
+            return Self::resolve_local(time, current);
         }
         panic!("Should not reach here!");
     }
@@ -297,7 +318,10 @@ impl TimeTrigger {
     /// Verification hook: the currently scheduled instant.
     #[cfg(log4rs_verif)]
     pub fn verif_next_roll_time(&self) -> DateTime<Local> {
-        *self.next_roll_time.read().unwrap_or_else(|e| e.into_inner())
+        *self
+            .next_roll_time
+            .read()
+            .unwrap_or_else(|e| e.into_inner())
     }
 }
 
